@@ -19,6 +19,9 @@ type btWorld struct {
 	dir   string
 	// stateCheck: after every checked step read every table completely and compare with the model.
 	stateCheck bool
+	famCache   map[string][]string
+	ambiguous  int64
+	last       bt.Resp // the implementation's response to the last step
 }
 
 var btDirSeq int
@@ -32,7 +35,16 @@ func newBTWorld(c *fw.Ctx, engine string) *btWorld {
 	}
 	vtime.SetVirtual(1_700_000_000_000_000_000, 1)
 	w.drv = bt.NewDriver(engine, w.dir)
-	w.hints = &bt.Hints{FamOrder: func(table, key string) []string { return w.drv.FamOrder(table, key) }}
+	w.famCache = map[string][]string{}
+	w.hints = &bt.Hints{FamOrder: func(table, key string) []string {
+		k := table + "\x00" + key
+		if fo, ok := w.famCache[k]; ok {
+			return fo
+		}
+		fo := w.drv.FamOrder(table, key)
+		w.famCache[k] = fo
+		return fo
+	}}
 	return w
 }
 
@@ -49,11 +61,18 @@ func (w *btWorld) Close() {
 func (w *btWorld) Step(o *bt.Op, check bool) (string, string) {
 	want := w.model.Apply(o, w.hints, vtime.Cur())
 	got := w.drv.Apply(o)
+	w.last = got
+	if o.Kind != "ReadRows" && o.Kind != "SampleRowKeys" && len(w.famCache) > 0 {
+		w.famCache = map[string][]string{}
+	}
 	if !check {
 		return "", ""
 	}
 	if got.Panic != "" {
 		return "panic in " + o.Kind + ": " + got.Panic, "panic"
+	}
+	if want.Ambiguous != "" {
+		w.ambiguous++
 	}
 	if m := bt.Compare(got, want); m != "" {
 		return "response of " + o.String() + ": " + m, "resp:" + firstWord(m)
